@@ -219,7 +219,26 @@ pub fn check_system(sys: &Sys, objs: &[Vec<f64>]) -> CaseOut {
         let cq: Vec<Q> = c.iter().map(|x| Q::from_f64(*x)).collect();
         let neg: Vec<Q> = cq.iter().map(|v| -v).collect();
         let exact = maximize(n, &lp_rows, &neg); // min c.x = -max(-c.x)
-        let real = catch(|| poly.solve_linprog(Array1::from(c.clone()), false));
+        // in the column-major re-run the objective is an owned array that is not in standard layout either: stored
+        // back to front with stride -1, or every second element of a longer buffer
+        let obj: Array1<f64> = if FORTRAN.with(|f| f.get()) && c.len() >= 2 {
+            if c.iter().map(|x| x.abs() as usize).sum::<usize>() % 2 == 0 {
+                let mut o = Array1::from(c.iter().rev().cloned().collect::<Vec<f64>>());
+                o.invert_axis(ndarray::Axis(0));
+                o
+            } else {
+                let mut buf = vec![];
+                for x in c.iter() {
+                    buf.push(*x);
+                    buf.push(7.0);
+                }
+                Array1::from(buf).slice_move(ndarray::s![..;2])
+            }
+        } else {
+            Array1::from(c.clone())
+        };
+        debug_assert_eq!(obj.to_vec(), c.clone());
+        let real = catch(|| poly.solve_linprog(obj, false));
         let recc = |extra: serde_json::Value| rec(json!({"objective_min": c, "exact": match &exact { LpResult::Infeasible => "infeasible".to_string(), LpResult::Unbounded => "unbounded below".to_string(), LpResult::Optimal(x, v) => format!("min {} at {:?}", -v.clone(), crate::q::fmt_vec(x)) }, "more": extra}));
         match real {
             Err(m) => out.violate(Violation::new(format!("solve_linprog panicked: {m}"), recc(json!({}))).tag("call", "solve_linprog").tag("kind", "panic")),
@@ -453,6 +472,11 @@ fn far_family() -> Vec<Sys> {
             }
         }
     }
+    // bounded sets whose vertices have coordinates of about 1e200 (their squares overflow)
+    for l in [1e200f64, -1e200] {
+        v.push(Sys { n: 1, rows: vec![(vec![1.0], l.abs()), (vec![-1.0], 0.0)] });
+        v.push(Sys { n: 2, rows: vec![(vec![l.signum(), 0.0], 1.25e200), (vec![-l.signum(), 0.0], -1e200), (vec![0.0, 1.0], 2.0), (vec![0.0, -1.0], 2.0)] });
+    }
     for l in [16384.0f64, 1048576.0] {
         for s in [1.0f64, 1000.0, 1e6] {
             v.push(Sys { n: 1, rows: vec![(vec![s], (l + 2.0) * s), (vec![-s], -(l - 2.0) * s)] });
@@ -508,10 +532,30 @@ pub fn run(tier: Tier) -> Report {
                 }
             }
         }
+        // bounded in every coordinate direction (exact)?
+        let lp_rows: Vec<Row> = rq.iter().map(|(a, b)| Row::le(a.clone(), b.clone())).collect();
+        let bounded = (0..s.n).all(|i| {
+            [1i64, -1].iter().all(|sg| {
+                let mut c = vec![Q::ZERO; s.n];
+                c[i] = Q::int(*sg);
+                matches!(maximize(s.n, &lp_rows, &c), LpResult::Optimal(..))
+            })
+        });
         for c in objectives(s.n, &[0.0, 1.0, -1.0]) {
             out.add("evaluations", 1);
-            if let Ok(PolytopeStatus::Infeasible) = catch(|| p.solve_linprog(Array1::from(c.clone()), false)) {
-                out.violate(Violation::new(format!("solve_linprog({:?}) = Infeasible for a polytope that contains a unit ball", c), rec("solve_linprog")).tag("call", "solve_linprog").tag("kind", "infeasible_but_fat").tag("family", "far"));
+            match catch(|| p.solve_linprog(Array1::from(c.clone()), false)) {
+                Ok(PolytopeStatus::Infeasible) => {
+                    out.violate(Violation::new(format!("solve_linprog({:?}) = Infeasible for a polytope that contains a unit ball", c), rec("solve_linprog")).tag("call", "solve_linprog").tag("kind", "infeasible_but_fat").tag("family", "far"));
+                }
+                Ok(PolytopeStatus::Unbounded) if bounded => {
+                    out.violate(Violation::new(format!("solve_linprog({:?}) = Unbounded for a bounded polytope", c), rec("solve_linprog")).tag("call", "solve_linprog").tag("kind", "unbounded_but_bounded").tag("family", "far"));
+                }
+                _ => {}
+            }
+        }
+        if bounded {
+            if let Ok(PolytopeStatus::Unbounded) = catch(|| p.status()) {
+                out.violate(Violation::new("status() = Unbounded for a bounded polytope", rec("status")).tag("call", "status").tag("kind", "unbounded_but_bounded").tag("family", "far"));
             }
         }
         out
